@@ -52,6 +52,7 @@ func runC03(r *rep.Report, thorough bool) error {
 	cases := genCases(rng, n, "t", o)
 	cases = append(cases, synth.HandWritten()...)
 	cases = append(cases, synth.KnownDefects()...)
+	cases = append(cases, synth.CaseOnlyNames()...)
 	l, err := load.Cases(cases)
 	if err != nil {
 		return err
